@@ -4257,25 +4257,47 @@ class TensorDictBase(MutableMapping):
                 idx = (*idx, Ellipsis)
             idx_names = convert_ellipsis_to_idx(idx, self.batch_size)
             # this will convert a [None, :, :, 0, None, 0] in [None, 0, 1, None, 3]
+            # Advanced indices (tensors, arrays, lists, ranges, masks) are broadcast together: the resulting
+            # dims sit where the first one was, or in front if a slice / None separates two of them.
             count = 0
             idx_to_take = []
-            no_more_tensors = False
+            adv_pos = None
+            adv_source = None
+            adv_ndim = 0
+            num_adv = 0
+            sep_after_adv = False
+            disjoint = False
             for _idx in idx_names:
                 if _idx is None:
                     idx_to_take.append(None)
+                    sep_after_adv = num_adv > 0
                 elif _is_number(_idx):
                     count += 1
-                elif isinstance(_idx, (torch.Tensor, np.ndarray)):
-                    if not no_more_tensors:
-                        idx_to_take.extend([count] * _idx.ndim)
-                        count += 1
-                        no_more_tensors = True
+                elif isinstance(_idx, (torch.Tensor, np.ndarray, list, range)):
+                    is_bool = isinstance(
+                        _idx, (torch.Tensor, np.ndarray)
+                    ) and _idx.dtype in (torch.bool, np.dtype("bool"))
+                    is_array = isinstance(_idx, (torch.Tensor, np.ndarray))
+                    if num_adv == 0:
+                        adv_pos = len(idx_to_take)
+                        adv_source = None if is_bool else count
                     else:
-                        # skip this one
-                        count += 1
+                        adv_source = None
+                        if sep_after_adv:
+                            disjoint = True
+                    num_adv += 1
+                    adv_ndim = max(adv_ndim, _idx.ndim if is_array and not is_bool else 1)
+                    count += _idx.ndim if is_bool else 1
                 else:
                     idx_to_take.append(count)
                     count += 1
+                    sep_after_adv = num_adv > 0
+            if num_adv:
+                adv_block = [adv_source] * adv_ndim
+                if disjoint:
+                    idx_to_take = adv_block + idx_to_take
+                else:
+                    idx_to_take[adv_pos:adv_pos] = adv_block
             names = [names[i] if i is not None else None for i in idx_to_take]
         if all(name is None for name in names):
             return None
